@@ -27,6 +27,27 @@ CHECKS = {
          'Every operation sequence of the bounded abstract store (edge cover, sampled 1-switch cover, two sessions sharing a medium, random walks beyond the bounds) with every return value compared by TLC.', '6 C16',
          'Trusted: TLC, the vstore driver, sqlite3 as the SQL back end (no other SQL server in the sandbox). Mongo store not covered.'),
 }
+CODEC_NOTE = 'Trusted: TLC 1.8.0; the Go driver under /verif/harness (independent tag=value scanner fixscan, concretisation of abstract cases); TLC integers are 32-bit.'
+CHECKS.update({
+ 'C09': ('exploration', 'specification-derived structured malformed inputs (Wire.tla field lists, Values.tla near-miss texts, Framer.tla pieces, settings/dictionary line and tree kinds) run through the real code under recover()+watchdog; session part: TLC model checking of Session.tla family garbage + graph-covering scripts + TLC trace validation (monitor C09 stillProcesses)',
+         'Every single and sampled double structural mutation of well-formed messages, every near-miss value text, truncation at every byte, length/XMLDataLen torture, malformed settings and dictionaries, mutated messages against shipped dictionaries, malformed frames in every session state followed by a TestRequest. Not a coverage-guided fuzzer: random byte strings beyond this space are not explored.', '6 C09 and 10',
+         CODEC_NOTE + ' A hang is anything slower than 5 s per case.'),
+ 'C10': ('model_checking', 'TLC model checking of FieldMap.tla + state-graph-covering API-call scripts (edge cover, 1-switch tours, random walks) executed on real quickfix.Message objects + TLC trace validation of every build (FieldMapTrace.tla)',
+         'Every API call sequence of the bounded model (set/overwrite/remove/clear/set again/group set on header, body, trailer) with the built bytes judged by an independent scanner, ParseMessage and CopyInto after every call.', '6 C10', CODEC_NOTE),
+ 'C11': ('model_checking', 'TLC model checking of Wire.tla (section classification) + generated wire messages parsed by the real parser with no / application / transport+application dictionaries + TLC trace validation against the ground-truth field list (WireTrace.tla)',
+         'Well-formed skeletons over header/body/trailer tag subsets incl. XMLData with embedded SOH, dictionary-only header/trailer tags, user-defined tags; every kind of single corruption of BodyLength and of the leading field order.', '6 C11', CODEC_NOTE),
+ 'C12': ('model_checking', 'TLC model checking of Framer.tla (prefix monotonicity of the content-only framing function) + the real parser run over every stream under many chunk schedules and buffer sizes + TLC trace validation (one result per stream, equal to Framer!Frames)',
+         'All concatenations of up to 2 (quick) / 3 (thorough) pieces from 14 piece kinds, streams of well-formed messages separated by junk, streams larger than the 4096-byte buffer; one-byte reads, fixed sizes, every single cut, random double cuts, ragged reads; default and 16/32/64-byte buffers.', '6 C12', CODEC_NOTE),
+ 'C14': ('model_checking', 'TLC model checking of Values.tla (round-trip laws) + bounded-exhaustive near-miss texts and value grids through the real Read/Write + TLC trace validation against the grammars, denotations and printers (ValuesTrace.tla)',
+         'Every text up to length 4 (quick) / 5 (thorough) over 9-character near-miss alphabets for int and float, up to 2 for boolean, every single-position substitution/deletion/insertion of 8 valid timestamps; value grids for the Write direction.', '6 C14',
+         CODEC_NOTE + ' Texts the FIX grammar is silent on (".5", more than 9 digits, leap second, year 0000) are unspecified and never judged. Binary rounding of floats is delegated to strconv.'),
+ 'C17': ('fault_enumeration', 'crash-point hook in the file store -> directory snapshots -> synthesised process-crash and power-loss images reopened by the real store; every image judged by TLC with Store!Apply (CrashTrace.tla); SQL: injected statement failures through a wrapping database/sql driver',
+         'Operation histories as the session produces them (incl. counters at digit roll-overs) x every crash point of the interrupted operation x cut positions (class representatives in quick, every byte in thorough) x process crash / power loss; a further save after reopening.', '6 C17',
+         'Trusted: the placement of the crash-point hook for which bytes count as synced (a removed fsync whose hook line stays is not observed); file removals/creations treated as immediately durable; sqlite3 as the SQL back end.'),
+ 'C18': ('model_checking', 'TLC model checking of Schedule.tla (window semantics: symmetric, transitive, convex, separated) + the real TimeRange evaluated on configurations x calendar grid x pairs in five time zones + TLC trace validation of every answer (ScheduleTrace.tla)',
+         'All start/end times from a 5-value grid, 7 weekday subsets, all 49 start/end day pairs (a seed-chosen third in quick); instants every boundary +-30 min over four weeks containing DST shifts; pairs within 8 days.', '6 C18',
+         CODEC_NOTE + ' Instants within one second of an edge and civil times that do not exist / are ambiguous in the zone are not judged.'),
+})
 NA = {}
 for l in open(V + '/properties.jsonl'):
     p = json.loads(l)
